@@ -96,7 +96,12 @@ impl dyn ObjectDataStreamTrait + '_ {
         let mut buffer = vec![0; 102400];
 
         loop {
-            let count = reader.read(&mut buffer)?;
+            let count = match reader.read(&mut buffer) {
+                Ok(count) => count,
+                // A read interrupted by a signal is retried, as the block encoder does
+                Err(e) if e.kind() == std::io::ErrorKind::Interrupted => continue,
+                Err(e) => return Err(e.into()),
+            };
             if count == 0 {
                 break;
             }
